@@ -306,6 +306,15 @@ class CmdStream(Stream):
             out.append([p, kind, c.decode("utf-8", "surrogateescape") if isinstance(c, bytes) else c])
         return sorted(out)
 
+    def root_argv(self, case, top="<top>"):
+        """the global --root option of a case: "rootarg" is the project root relative to the scratch top, "rootspell" how it is
+        written (relative to the working directory / absolute / relative with ./ and a trailing slash)"""
+        if case.get("rootarg") is None:
+            return []
+        rel = os.path.relpath(case["rootarg"], case["cwd"])
+        spell = case.get("rootspell", "rel")
+        return ["--root", os.path.join(top, case["rootarg"]) if spell == "abs" else "./" + rel + "/" if spell == "slash" else rel]
+
     def argv(self, case):
         args = ["download"]
         if case["all"]:
@@ -324,7 +333,7 @@ class CmdStream(Stream):
             orig = urllib.request.urlopen
             urllib.request.urlopen = stub
             try:
-                code, out, exc = cli.run_cli(self.argv(case), os.path.join(top, case["cwd"]))
+                code, out, exc = cli.run_cli(self.root_argv(case, top) + self.argv(case), os.path.join(top, case["cwd"]))
             finally:
                 urllib.request.urlopen = orig
             after = self.snap(top)
@@ -333,7 +342,14 @@ class CmdStream(Stream):
             if before != self.snap_of_case(case):
                 res["harness"] = "tree was not built as described"
             if case["all"] and code == 0:
-                lcode, rep, lexc = cli.lint_json(os.path.join(top, case["cwd"]))
+                if case.get("rootarg") is None:
+                    lcode, rep, lexc = cli.lint_json(os.path.join(top, case["cwd"]))
+                else:
+                    lcode, lout, lexc = cli.run_cli(self.root_argv(case, top) + ["lint", "--json"], os.path.join(top, case["cwd"]))
+                    try:
+                        rep = json.loads(lout[lout.index("{"):]) if lexc is None else None
+                    except ValueError as e:
+                        rep, lexc = None, e
                 res["lint_missing"] = sorted(rep["non_compliant"]["missing_licenses"]) if rep else "lint failed: %r" % (lexc,)
             return json.dumps(res, sort_keys=True)
 
@@ -354,7 +370,7 @@ class CmdStream(Stream):
         f = [
             "download",
             enc_list(p for p, k, c in tree), enc_list(k for p, k, c in tree), enc_list(c for p, k, c in tree),
-            enc(cwd), enc(case["root"]), enc_bool(not case["git"]),
+            enc(cwd), enc(case["root"]), enc_bool(case.get("novcs", not case["git"])),
             enc_list(case["ids"]), enc_bool(case["all"]),
             enc_opt(None if case["output"] is None else norm(cwd, case["output"])),
             enc_opt(None if case["source"] is None else norm(cwd, case["source"])),
@@ -477,7 +493,8 @@ class CmdStream(Stream):
         return None
 
     def classify(self, case, failure):
-        if failure.startswith("all-not-closed") and not case["git"] and case["cwd"].endswith("/LICENSES"):
+        if failure.startswith("all-not-closed") and case.get("novcs", not case["git"]) and case["cwd"].endswith("/LICENSES") \
+                and case.get("rootarg") is None:
             return "all-inside-licenses-without-vcs"
         return None
 
@@ -489,7 +506,7 @@ class CmdStream(Stream):
         return json.dumps([r["exit"], sorted(p for p, k, c in r["after"] if p not in before), r["calls"]])
 
     def show(self, case):
-        return {"argv": self.argv(case), "cwd": case["cwd"], "git": case["git"], "net": case["net"],
+        return {"argv": self.root_argv(case) + self.argv(case), "cwd": case["cwd"], "git": case["git"], "net": case["net"],
                 "tree": [[p, k, c[:60]] for p, k, c in case["tree"]]}
 
 
@@ -535,6 +552,91 @@ class AllStream(CmdStream):
             yield self.gen(rng, finding_shape=True)
 
 
+class RootCwdStream(CmdStream):
+    """Working directory x --root x VCS, as a product: where the text must land is the property's "LICENSES/<identifier>.txt under
+    the project root" -- the root being --root when given, else the top of the Git work tree, else the working directory (inside
+    whose LICENSES/ means: in it)."""
+    name = "rootcwd"
+    CWDS = ["proj", "proj/sub", "proj/LICENSES", "proj/vendor/x/LICENSES", "outside/LICENSES", "elsewhere"]
+    rule = ("the product working directory {project root, a sub-directory, <root>/LICENSES, a vendored component's "
+            "<root>/vendor/x/LICENSES, the LICENSES/ of an unrelated directory outside, an unrelated directory} x {--root given "
+            "(relative, absolute, ./x/), not given} x {the project is a Git repository, no VCS} x {`download <ids>`, `download "
+            "--all` followed by the real lint with the same --root} with LICENSES/ absent / empty / partly filled and every network "
+            "outcome, plus --root naming a directory that is itself called LICENSES from four other working directories: the same whole-tree snapshot oracle (text only in LICENSES/<id>.txt under the project root, nothing else "
+            "created anywhere -- in particular not in the working directory's LICENSES/ --, --all closes the gap) and the same "
+            "model (Env cwd / root / vcsNone); quick: every cell twice, thorough: 12 times")
+
+    def gen_cell(self, rng, cwd, rootgiven, git, want_all, rootdir="proj"):
+        inside = cwd == "proj" or cwd.startswith("proj/")
+        if rootgiven and rootdir != "proj":
+            # a project whose own directory is called LICENSES (never a repository here), named with --root from another directory
+            root, novcs, git = rootdir, True, False
+        elif rootgiven:
+            root, novcs = "proj", not git
+        elif git and inside:
+            root, novcs = "proj", False
+        else:
+            root, novcs = cwd, True
+        if rootgiven or not novcs:
+            licdir = root + "/LICENSES"
+        else:
+            licdir = cwd if posixpath.basename(cwd) == "LICENSES" else cwd + "/LICENSES"
+        tree = [["outside", "d", ""], ["outside/keep.txt", "f", "outside\n"], ["outside/LICENSES", "d", ""],
+                ["outside/LICENSES/Unrelated-2.0.txt", "f", "another project's licence, must stay\n"], ["elsewhere", "d", ""],
+                ["proj", "d", ""], ["proj/sub", "d", ""], ["proj/src", "d", ""], ["proj/README", "f", "readme\n"],
+                ["proj/vendor", "d", ""], ["proj/vendor/x", "d", ""], ["proj/vendor/x/LICENSES", "d", ""],
+                ["proj/vendor/x/LICENSES/Unrelated-3.0.txt", "f", "the vendored component's licence, must stay\n"],
+                ["proj/lics", "d", ""], ["proj/lics/LicenseRef-a.txt", "f", "text of a from lics\n"]]
+        state = rng.choice(["absent", "empty", "some", "some"])
+        if cwd == "proj/LICENSES" and state == "absent":
+            state = "empty"   # the working directory exists
+        if licdir in ("outside/LICENSES", "proj/vendor/x/LICENSES"):
+            state = "present"  # already in the tree
+        used = {}
+        if want_all:
+            ids = []
+            for f in ["proj/src/a.py", "proj/sub/b.py"]:
+                used[f] = sorted({rng.choice(POOL) for _ in range(rng.choice([1, 2, 3]))})
+            targets = sorted({strip_plus(i) for v in used.values() for i in v})
+        else:
+            ids = [rng.choice(POOL) for _ in range(rng.choice([1, 2, 3]))]
+            targets = sorted({strip_plus(i) for i in ids})
+        if rootdir != "proj":
+            if want_all:
+                used = {rootdir + "/tagged.py": sorted({i for v in used.values() for i in v})}
+            else:
+                tree.append([rootdir + "/tagged.py", "f", tagged(["MIT"])])
+        if state == "present":
+            for t in targets:
+                if rng.random() < 0.2:
+                    tree.append(["%s/%s.txt" % (licdir, t), "f", "pre-existing %s, must stay\n" % t])
+        else:
+            self.populate(rng, tree, licdir, state, targets, plain_only=want_all)
+        if cwd == "proj/LICENSES" and not any(p == cwd for p, k, c in tree):
+            tree.append([cwd, "d", ""])
+        for f, v in used.items():
+            tree.append([f, "f", tagged(v)])
+        net = {t: ("ok" if rng.random() < 0.8 else rng.choice(["404", "http", "url"])) for t in targets}
+        source = os.path.relpath("proj/lics", cwd) if rng.random() < 0.15 else None
+        case = {"tree": tree, "git": git, "novcs": novcs, "cwd": cwd, "root": root, "licdir": licdir, "ids": ids, "all": want_all,
+                "output": None, "source": source, "net": net, "used": used}
+        if rootgiven:
+            case.update(rootarg=rootdir, rootspell=rng.choice(["rel", "rel", "abs", "slash"]))
+        return case
+
+    def cases(self, tier, rng):
+        for _ in range(12 if tier == "thorough" else 2):
+            for cwd in self.CWDS:
+                for rootgiven in (True, False):
+                    for git in (True, False):
+                        for want_all in (False, True):
+                            yield self.gen_cell(rng, cwd, rootgiven, git, want_all)
+            # --root names a directory that is itself called LICENSES, from every other working directory
+            for cwd in ["elsewhere", "proj", "proj/LICENSES", "outside"]:
+                for want_all in (False, True):
+                    yield self.gen_cell(rng, cwd, True, False, want_all, rootdir="outside/LICENSES")
+
+
 class TransferStream(CmdStream):
     """One identifier whose transfer breaks while the body is read (an exception urllib does not wrap):
     judged by the property clauses only (no partial file, nothing overwritten, failure in the exit status)."""
@@ -558,7 +660,7 @@ class TransferStream(CmdStream):
 
 PROPERTY = Property(
     pid="C19",
-    streams=[IdentStream(), CmdStream(), AllStream(), TransferStream()],
+    streams=[IdentStream(), CmdStream(), AllStream(), RootCwdStream(), TransferStream()],
     assumptions=[
         "paths are resolved lexically in the model: a LICENSES/ (or --output parent, or --source) reached through a symbolic "
         "link to a directory is not generated; links met at the destination itself (dangling, to a file) are",
